@@ -1,7 +1,7 @@
 (* C18 — property theorems.  Statements only: each is closed by [exact] of a lemma proved in
    coq/C18/, followed by Print Assumptions. *)
 From Coq Require Import ZArith List.
-From Scenic Require Import C18.Codec C18.CodecProofs C18.SampleProofs.
+From Scenic Require Import C18.Codec C18.CodecProofs C18.SampleProofs C18.Replay C18.ReplayProofs.
 Import ListNotations.
 Open Scope Z_scope.
 
@@ -78,4 +78,114 @@ Proof.
   intros i n H d Hd. unfold ex_dag in H.
   do 5 (destruct i as [|i]; [simpl in H; inversion H; subst; simpl in Hd; repeat (destruct Hd as [<-|Hd]; [repeat constructor|]); try contradiction|]).
   destruct i; discriminate.
+Qed.
+
+(* ===================== the replay stream (coq/C18/Replay.v) ===================== *)
+
+(* what a replayed run-time draw records: decoding an encoded sample and re-encoding the decoder's
+   table of values gives back exactly the bytes read *)
+Theorem C18_sample_roundtrip_reencode : forall g pval, wf_dag g -> forall deps bs rest,
+  enc_sample g pval deps = Some bs ->
+  exists pe, dec_sample g deps (bs ++ rest) = OK (pe, rest) /\ enc_sample g (pv_of pe) deps = Some bs.
+Proof. exact sample_roundtrip_reencode. Qed.
+Print Assumptions C18_sample_roundtrip_reencode.
+
+(* replay_reproduces: for EVERY deterministic simulation program p (any tree of run-time draw requests
+   over any well-founded DAGs and of object updates), every random generator w1 of the recording and
+   w2 of the replaying process, every divergence predicate that never reports equal values, and every
+   combination of enableDivergenceCheck / continueAfterDivergence: the replay makes exactly the
+   recorded draws and completes; with the same enableDivergenceCheck it re-records the same bytes *)
+Theorem C18_replay_reproduces : forall dv, (forall t v, dv t v v = false) ->
+  forall p wr cont1 w1 tr out, prog_wf p ->
+  simulate dv wr cont1 p [] w1 = R tr out Completed -> nonempty_draws tr ->
+  forall wr2 cont2 w2, exists out2,
+    simulate dv wr2 cont2 p out w2 = R tr out2 Completed /\ (wr2 = wr -> out2 = out).
+Proof. exact replay_reproduces. Qed.
+Print Assumptions C18_replay_reproduces.
+
+(* rerecord_identical (what seeded/C18-1 broke) *)
+Theorem C18_rerecord_identical : forall dv, (forall t v, dv t v v = false) ->
+  forall p wr cont1 w1 tr out, prog_wf p ->
+  simulate dv wr cont1 p [] w1 = R tr out Completed -> nonempty_draws tr ->
+  forall cont2 w2, simulate dv wr cont2 p out w2 = R tr out Completed.
+Proof. exact rerecord_identical. Qed.
+Print Assumptions C18_rerecord_identical.
+
+(* replay_prefix: EVERY truncation s of a recorded replay is either refused, or the run is exactly a
+   fresh simulation whose first m draws are the recorded ones and whose later draws are fresh *)
+Theorem C18_replay_prefix : forall dv, (forall t v, dv t v v = false) ->
+  forall p wr cont1 w1 tr out, prog_wf p ->
+  simulate dv wr cont1 p [] w1 = R tr out Completed ->
+  forall s t, out = s ++ t -> forall wr2 cont2 w2,
+  (exists e tr' o', simulate dv wr2 cont2 p s w2 = R tr' o' (Failed e)) \/
+  (exists m, simulate dv wr2 cont2 p s w2 = simulate dv wr2 cont2 p [] (splice m w1 w2)).
+Proof. exact replay_prefix. Qed.
+Print Assumptions C18_replay_prefix.
+
+(* divergence check interleaved with the draws: a replaying simulator p' that asks for the same draws
+   and whose dynamic properties stay within the tolerance reproduces the draws ... *)
+Theorem C18_replay_within_tolerance : forall dv p p', within (props_within dv) p p' ->
+  forall wr cont1 w1 tr out,
+  simulate dv wr cont1 p [] w1 = R tr out Completed -> nonempty_draws tr ->
+  forall wr2 cont2 w2, exists out2, simulate dv wr2 cont2 p' out w2 = R tr out2 Completed.
+Proof. exact replay_within_tolerance. Qed.
+Print Assumptions C18_replay_within_tolerance.
+
+(* ... and one in which some dynamic property of some object leaves the tolerance is reported *)
+Theorem C18_replay_divergence_detected : forall dv p p', diverges dv p p' ->
+  forall cont1 w1 tr out,
+  simulate dv true cont1 p [] w1 = R tr out Completed -> nonempty_draws tr ->
+  forall wr2 w2, exists tr' o', simulate dv wr2 false p' out w2 = R tr' o' Diverged.
+Proof. exact replay_divergence_detected. Qed.
+Print Assumptions C18_replay_divergence_detected.
+
+(* the model's valuesHaveDiverged satisfies the hypothesis above, and on integers it is |a-e| > tol *)
+Theorem C18_diverged_val_refl : forall tol t v, diverged_val tol t v v = false.
+Proof. exact diverged_val_refl. Qed.
+Theorem C18_diverged_val_int : forall k e a, 0 <= k ->
+  diverged_val (k, 0) TInt (VInt e) (VInt a) = true <-> k < Z.abs (a - e).
+Proof. exact diverged_val_int. Qed.
+Print Assumptions C18_diverged_val_int.
+
+(* the recording as it was before fix-C18-replay-shared-dependency (one memo for all run-time draws)
+   VIOLATES the property: a dependency shared by two draws is written once and read twice *)
+Theorem C18_shared_memo_refuted : exists g pv r1 r2 b,
+  wf_dag g /\ record_two_shared_memo g pv pv r1 r2 = Some b /\
+  exists pe rest, dec_sample g [r1] b = OK (pe, rest) /\ dec_sample g [r2] rest = Err ETrunc.
+Proof. exact shared_memo_refuted. Qed.
+Print Assumptions C18_shared_memo_refuted.
+
+(* non-vacuity: a program with two draws and divergence data satisfies the hypotheses; its replay is
+   12 + 6 bytes; cutting it inside the second draw is refused; a drifted simulator is reported *)
+Definition ex_g : list node := [NPrim TInt].
+Definition ex_one : val := VFix [0; 0; 0; 0; 0; 0; 240; 63].       (* 1.0 *)
+Definition ex_two : val := VFix [0; 0; 0; 0; 0; 0; 0; 64].         (* 2.0 *)
+Definition ex_prog (x:val) : prog :=
+  PDraw ex_g 0%nat (fun _ => PUpdate [(TFloat, x)] (PDraw ex_g 0%nat (fun _ => PDone))).
+Definition ex_w (n:nat) (_:nat) : val := VInt (300 + Z.of_nat n).
+Definition ex_tol : dyadic := (1, -1).                               (* 0.5 *)
+Example C18_replay_example :
+  prog_wf (ex_prog ex_one) /\
+  simulate (diverged_val ex_tol) true false (ex_prog ex_one) [] ex_w =
+    R [[253; 44; 1]; [253; 45; 1]] [2; 0; 1; 0; 0; 0; 253; 44; 1; 0; 0; 0; 0; 0; 0; 240; 63; 253; 45; 1] Completed /\
+  nonempty_draws [[253; 44; 1]; [253; 45; 1]] /\
+  r_end (simulate (diverged_val ex_tol) true false (ex_prog ex_one)
+           [2; 0; 1; 0; 0; 0; 253; 44; 1; 0; 0; 0; 0; 0; 0; 240; 63; 253; 45] ex_w) = Failed ETrunc /\
+  diverges (diverged_val ex_tol) (ex_prog ex_one) (ex_prog ex_two) /\
+  r_end (simulate (diverged_val ex_tol) true false (ex_prog ex_two)
+           [2; 0; 1; 0; 0; 0; 253; 44; 1; 0; 0; 0; 0; 0; 0; 240; 63; 253; 45; 1] ex_w) = Diverged.
+Proof.
+  assert (Hg : wf_dag ex_g).
+  { intros i n H d Hd. destruct i as [|[|i]]; cbn in H; inversion H; subst; cbn in Hd; contradiction. }
+  split.
+  { constructor; [exact Hg|]. intros _. constructor; [cbn; discriminate|].
+    constructor; [exact Hg|]. intros _. constructor. }
+  split; [vm_compute; reflexivity|].
+  split; [repeat constructor; discriminate|].
+  split; [vm_compute; reflexivity|].
+  split; [|vm_compute; reflexivity].
+  constructor; [exact Hg|]. intros _. constructor.
+  - constructor. vm_compute. reflexivity.
+  - cbn. discriminate.
+  - cbn. discriminate.
 Qed.
